@@ -132,7 +132,7 @@ def run(ctx, chk):
     chk.ob("C20.control", "verif_ctl_unguarded_product", ctl_hit, "controls/ctl_arith.c")
     # anchors
     chk.floor("C20.anchors", "guarded products (idiom 1)", counts.get("1-guard-call", 0), 6)
-    chk.floor("C20.anchors", "subtractive guards (idiom 3)", counts.get("3-subtractive-guard", 0), 2)
+    chk.floor("C20.anchors", "subtractive guards (idiom 3)", counts.get("3-subtractive-guard", 0), 1)
     chk.floor("C20.anchors", "window terms (idiom 8)", counts.get("8-window", 0), 20)
     chk.floor("C20.anchors", "post-check / saturation (idiom 4)", counts.get("4-post-check", 0), 1)
     for k, v in sorted(counts.items()):
@@ -337,6 +337,9 @@ def classify_event(prog, pa, idx, e):
     if fn == "cbor_load":
         if op == "add":
             return True, "8-window", ""   # read + decode_result.read (C14.accumulate: FINISHED results on the window)
+        if op == "sub" and a == ("arg", e.fn.param_index("source_size")):
+            # source_size - read: read is 0 plus FINISHED read counts, each <= the window the decoder was given (C08.read/claim)
+            return True, "8-window", ""
     # the claim_bytes failure arm with constant-bounded operands
     if op == "add" and (is_const(a) or is_const(b)):
         c, v = (a, b) if is_const(a) else (b, a)
